@@ -225,6 +225,7 @@ def tours(g, rng, mac_final, fraction=1.0):
     _, seen_nd = bfs_tree(g, 1)
     avoid = 1 | (2 if mac_final else 0)
     parent, seen = bfs_tree(g, avoid)
+    g.parent = parent
     unreachable = seen_nd.count(False)
     n = len(g.keys)
     left = [[] for _ in range(n)]
@@ -333,28 +334,49 @@ def run_replay(ctx, graphs, chunks, tag):
 
 
 def reproduce(ctx, gmap, cmap, bads, tag):
-    """A second time, alone: the history of the tour up to and including the
-    offending step, from a fresh Storage.  Returns the replay records
-    (None where the disagreement did not show again)."""
-    cs = []
-    for i, b in enumerate(bads):
-        c = cmap[b["chunk"]]
-        cs.append({"u": c["u"], "id": i, "variant": c["variant"], "edges": c["edges"][:b["step"] + 1], "_g": c["_g"]})
-    graphs = [gmap[u] for u in sorted({c["u"] for c in cs})]
-    again, _ = run_replay(ctx, graphs, cs, tag)
+    """A second time, alone, from a fresh Storage: first the shortest known
+    history that reaches the offending edge's source state followed by the
+    edge; for those that do not show that way, the history of the tour up to
+    and including the offending step.  Returns the replay records (None where
+    the disagreement did not show again)."""
     recs = [None] * len(bads)
-    for a in again:
-        b = bads[a["chunk"]]
-        if a["step"] == b["step"] and a["kind"] == b["kind"] and a["what"] == b["what"]:
-            g = gmap[b["u"]]
-            rec = dict(a)
-            rec["seed"] = ctx.seed
-            rec["universe"] = b["u"]
-            rec["cfg"] = UNIVERSES[ctx.tier][b["u"]]
-            rec["steps"] = [json.loads(g.step[e]) for e in cs[a["chunk"]]["edges"]]
-            for st in rec["steps"]:
-                st["dkey"] = g.keys[st.pop("d")]
-            recs[a["chunk"]] = rec
+
+    def attempt(kind):
+        cs, who = [], []
+        for i, b in enumerate(bads):
+            if recs[i] is not None:
+                continue
+            c = cmap[b["chunk"]]
+            g = c["_g"]
+            if kind == "short":
+                if b["step"] < 0:
+                    continue
+                e = c["edges"][b["step"]]
+                edges = path_to(g, g.parent, g.src[e]) + [e]
+            else:
+                edges = c["edges"][:b["step"] + 1]
+            cs.append({"u": c["u"], "id": len(cs), "variant": c["variant"], "edges": edges, "_g": g})
+            who.append(i)
+        if not cs:
+            return
+        graphs = [gmap[u] for u in sorted({c["u"] for c in cs})]
+        again, _ = run_replay(ctx, graphs, cs, "%s_%s" % (tag, kind))
+        for a in again:
+            c, i = cs[a["chunk"]], who[a["chunk"]]
+            b = bads[i]
+            if a["step"] == len(c["edges"]) - 1 and a["kind"] == b["kind"] and a["what"] == b["what"]:
+                g = gmap[b["u"]]
+                rec = dict(a)
+                rec["seed"] = ctx.seed
+                rec["universe"] = b["u"]
+                rec["cfg"] = UNIVERSES[ctx.tier][b["u"]]
+                rec["steps"] = [json.loads(g.step[e]) for e in c["edges"]]
+                for st in rec["steps"]:
+                    st["dkey"] = g.keys[st.pop("d")]
+                recs[i] = rec
+
+    attempt("short")
+    attempt("prefix")
     return recs
 
 
@@ -373,6 +395,27 @@ def trace_validate(ctx, env=None, tag="b"):
     if verdict["n"] != len(rows):
         raise vlib.Inconclusive("trace spec consumed %s of %d lines" % (verdict["n"], len(rows)))
     return rows, verdict["bad"], verdict["soft"], verdict["skipped"]
+
+
+def binding_demo(ctx, rows, rejected):
+    """One recorded history (one without rejected lines: after a rejected line
+    the rest of a history is skipped) with ONE corrupted observation (the name
+    a lookup reported) must be rejected by the trace spec exactly there."""
+    dirty = {rows[x["l"] - 1]["trace"] for x in rejected}
+    for tr in sorted({r["trace"] for r in rows} - dirty):
+        hist = [dict(r) for r in rows if r["trace"] == tr]
+        for j, r in enumerate(hist):
+            if r["op"] == "look" and r["out"][0] not in ("none", "whois"):
+                r["out"] = [r["out"][0], r["out"][1] + "x", r["out"][2]]
+                p = ctx.path("g05_trace_demo.ndjson")
+                vlib.write_ndjson(p, hist)
+                res = ctx.tlc("TraceRuntimeClients", "TraceRuntimeClients.cfg", workers=1, extra_files=[(p, "trace.ndjson")],
+                              timeout=300, heap="2g")
+                v = res["vectors"][-1] if res["vectors"] else None
+                if not v or j + 1 not in [x["l"] for x in v["bad"]]:
+                    raise vlib.Inconclusive("binding demo: a corrupted lookup reply (line %d of history %d) was not rejected" % (j + 1, tr))
+                return {"history": tr, "line": j + 1, "corrupted": "name reported by ClientRuntime", "rejected": True}
+    raise vlib.Inconclusive("binding demo: no history contains a lookup that reports a name")
 
 
 def pre_clients(rows, upto):
@@ -564,6 +607,8 @@ def run(ctx):
             else:
                 raise vlib.Inconclusive("rejected trace line %d did not reproduce" % i)
 
+    demo = binding_demo(ctx, trows, tbad)
+
     ops_b = {}
     for r in trows:
         ops_b[r["op"]] = ops_b.get(r["op"], 0) + 1
@@ -596,9 +641,14 @@ def run(ctx):
         "trace_lines_rejected": len(tbad), "trace_lines_identity_only": len(tsoft), "trace_lines_skipped": tskipped,
         "trace_disagreements": {str(k): len(v) for k, v in tby.items()},
         "truncated_by_known_finding": truncated + tskipped + cut_edges,
-        "coverage_actions_cov_cfg": taken,
+        "coverage_actions_cov_cfg": taken, "binding_demo": demo,
         "universe_cfgs": unis,
-        "exhaustive": True, "samples": samples,
+        # every replayable edge of the enumerated universes was replayed; the edges with several admissible
+        # successors cannot be tour steps (trace direction), and an open finding cuts part of the graph off
+        "exhaustive": cut_edges == 0,
+        "exhaustive_note": "%d edges with several admissible successors are checked by TLC but not replayable; "
+                           "%d edges lie behind lookups that an open finding makes fail" % (nd_edges, cut_edges),
+        "samples": samples,
     }
     return ctx.finish("model_checking", cov, assumptions=[
         "TLC; conc()/abs() of zz_verif_g05_test.go (address embedding under 192.168.7.0/24 or fd00::7:0/120, mac bytes, "
